@@ -1346,7 +1346,20 @@ def lint(repo, lib_dir, workdir, dumps):
     for tu in tus + [hpath]:
         lint_docs(dumps.get(tu, 'yaclib', verif=True), repo, verif, set())
     verif_only = [h for h in verif if h not in prod]
-    return sorted(prod), sorted(verif_only), sorted(files), tus
+    # which type each clock name of yaclib_std::chrono is in this (FIBER) configuration
+    aliases = []
+    for d in dumps.get(hpath, 'yaclib', verif=False):
+        for n in A.find_all(d, lambda x: x.get('kind') in ('TypeAliasDecl', 'TypedefDecl', 'UsingDecl', 'UsingShadowDecl') and
+                            (x.get('_file') or '').endswith('yaclib_std/detail/clock.hpp')):
+            if n.get('kind') not in ('TypeAliasDecl', 'TypedefDecl'):
+                raise A.ExtractError('clock.hpp: unsupported clock declaration %s %s' % (n.get('kind'), n.get('name')))
+            t = n.get('type', {})
+            e = (n.get('name'), _clean(t.get('desugaredQualType') or t.get('qualType')))
+            if e not in aliases:
+                aliases.append(e)
+    if not aliases:
+        raise A.ExtractError('clock.hpp: no clock alias found in the FIBER configuration')
+    return sorted(prod), sorted(verif_only), sorted(files), tus, sorted(aliases)
 
 
 # ------------------------------------------------------------------------------------------------ output
@@ -1464,7 +1477,7 @@ def _generate(repo, lib_dir, workdir):
         out.append('def source_%s : String :=\n  %s' % (a.replace('.', '_'), _q(b)))
     out.append('')
     out.append('def sources : List (String × String) := [\n' + ',\n'.join('  (%s, %s)' % (_q(a), _q(b)) for a, b in sources) + '\n]\n')
-    prod, verif_only, files, tus = lint(repo, lib_dir, workdir, dumps)
+    prod, verif_only, files, tus, clock_aliases = lint(repo, lib_dir, workdir, dumps)
     out.append('/-! lint: forbidden sources of nondeterminism in the fault layer (FIBER configuration; files under\n'
                '    src/fault/, include/yaclib/fault/, include/yaclib_std/).  `lintHits` is the production configuration (without\n'
                '    YACLIB_VERIF); `lintHitsVerifOnly` are additional hits that exist only inside `#ifdef YACLIB_VERIF` instrumentation. -/\n')
@@ -1474,5 +1487,8 @@ def _generate(repo, lib_dir, workdir):
                ', '.join('(%s, %d, %s)' % (_q(a), b, _q(c)) for a, b, c in prod) + ']\n')
     out.append('def lintHitsVerifOnly : List (String × Nat × String) := [' +
                ', '.join('(%s, %d, %s)' % (_q(a), b, _q(c)) for a, b, c in verif_only) + ']\n')
+    out.append('/-- the clock names `yaclib_std::chrono::X` declared by include/yaclib_std/detail/clock.hpp in this configuration and\n'
+               '    the type each of them is (desugared) -/')
+    out.append('def clockAliases : List (String × String) := [' + ', '.join('(%s, %s)' % (_q(a), _q(b)) for a, b in clock_aliases) + ']\n')
     out.append('end Yaclib.Extracted.FiberSched\n')
     return '\n'.join(out)
